@@ -162,6 +162,13 @@ func utxoCacheEviction(c *q.Ctx) {
 		c.Fail("K11", name, "one insertion end of the LRU list", "-", "PushFront/PushBack calls not as expected")
 		return
 	}
+	// ... and, strictly, must not drop entries by capacity at all while a block is being replayed: CheckInputEqualOutput
+	// has no other source for an output staged in the still unwritten batch. The capacity eviction in Insert is a
+	// recorded finding (known_findings.json): a valid block with more than utxo.cachesize outputs between an output
+	// and its in-block spender cannot be replayed by a node that did not hold its transactions in its own pool.
+	c.WhoCalls("UtxoCache.remove", map[string]string{
+		"bcs/ledger/xledger/state/utxo::(*UtxoCache).Remove": "explicit removal of a spent or undone output",
+	}, "entries leave the output cache only when their output is spent or undone: the replay of a block finds outputs of its own unwritten batch nowhere else")
 	c.ArgIs(ins, "UtxoCache.remove", 1, "list.(*List)."+want+"(p0.List).Value[0]", 1, "the victim is the entry at the end opposite to the insertion end (least recently inserted), never the entry just inserted")
 	c.ArgIs(ins, "UtxoCache.remove", 2, "list.(*List)."+want+"(p0.List).Value[1]", 1, "address and key of the victim come from the same list element")
 }
